@@ -170,6 +170,11 @@ class Report:
         nontrivial: bool = True,
     ) -> bool:
         verdict = HOLDS if ok is True else VIOLATED if ok is False else UNDECIDED
+        ex_s = _s(extracted)
+        if verdict == VIOLATED and (ex_s.startswith(("('unsupported'", "unsupported")) or "outside fragment" in ex_s[:40]):
+            # the evaluation left the fragment the interpreter represents: no verdict, never a violation
+            verdict = UNDECIDED
+            detail = "(the abstract evaluation is outside the modelled fragment) " + detail
         self.obls.append(
             Obligation(
                 rule,
@@ -213,6 +218,20 @@ def finish(report: Report, seed: int = 0) -> int:
         for k in kf.get("known", [])
         if k["property"] == prop
     }
+    # analysis gaps: if the analysed source uses library idioms the interpreter does not model, a
+    # negative verdict may be an artefact of the model; it is reported as undecided, never as a violation
+    try:
+        from .absint import Interp
+
+        gaps = list(Interp.GAPS)
+    except Exception:
+        gaps = []
+    if gaps:
+        for o in report.obls:
+            if o.verdict == VIOLATED and o.key() not in known:
+                o.verdict = UNDECIDED
+                o.detail = "(undecided because of unmodelled constructs: " + "; ".join(gaps[:4]) + ") " + o.detail
+        report.analysed["analysis_gaps"] = gaps
     viol = [o for o in report.obls if o.verdict == VIOLATED]
     und = [o for o in report.obls if o.verdict == UNDECIDED]
     new_viol_all = [o for o in viol if o.key() not in known]
